@@ -36,6 +36,79 @@ fn run_pad(out: &mut Out, kind: Kind, p: &[u8], n: u8) {
     view::dump_kind(out, "b", kind, &q);
 }
 
+/// A copy of a byte string whose first byte sits at address `8*m + k` (PROTOCOL.md §4.1,
+/// alignment independence): the copy lives in an over-allocated `Vec<u8>` and starts at the
+/// first address of that allocation with `addr % 8 == k`.
+struct Placed {
+    store: Vec<u8>,
+    start: usize,
+    len: usize,
+}
+
+impl Placed {
+    fn new(bytes: &[u8], k: usize) -> Placed {
+        debug_assert!(k < 8);
+        let mut store = vec![0u8; bytes.len() + 16];
+        let addr = store.as_ptr() as usize;
+        let start = (k + 8 - addr % 8) % 8;
+        store[start..start + bytes.len()].copy_from_slice(bytes);
+        Placed {
+            store,
+            start,
+            len: bytes.len(),
+        }
+    }
+
+    fn bytes(&self) -> &[u8] {
+        &self.store[self.start..self.start + self.len]
+    }
+}
+
+/// Inputs longer than this are dumped once only (no `shift_same` key).
+const SHIFT_MAX_LEN: usize = 70000;
+
+fn key_of(line: &str) -> &str {
+    line.split('=').next().unwrap_or(line)
+}
+
+/// The key of the first line in which two dumps differ (the normal dump's line at that position;
+/// the other dump's line when the normal dump has no line there).
+fn first_diff_key<'a>(normal: &'a str, other: &'a str) -> &'a str {
+    let mut a = normal.lines();
+    let mut b = other.lines();
+    loop {
+        match (a.next(), b.next()) {
+            (Some(x), Some(y)) if x == y => continue,
+            (Some(x), _) => return key_of(x),
+            (None, Some(y)) => return key_of(y),
+            (None, None) => return "",
+        }
+    }
+}
+
+/// PROTOCOL.md §4.1: the view dump from an 8-byte aligned start, then the same dump on copies at
+/// addresses `8*m + 1`, `+ 2`, `+ 3`, reported in the one key `shift_same`.
+fn run_parse(out: &mut Out, kind: Kind, bytes: &[u8]) {
+    let aligned = Placed::new(bytes, 0);
+    debug_assert_eq!(aligned.bytes().as_ptr() as usize % 8, 0);
+    view::dump_kind(out, "", kind, aligned.bytes());
+    if bytes.len() > SHIFT_MAX_LEN {
+        return;
+    }
+    let mut verdict = "true".to_string();
+    for k in 1..=3usize {
+        let shifted = Placed::new(bytes, k);
+        debug_assert_eq!(shifted.bytes().as_ptr() as usize % 8, k);
+        let mut other = Out::new();
+        view::dump_kind(&mut other, "", kind, shifted.bytes());
+        if other.buf != out.buf {
+            verdict = format!("false:{k}:{}", first_diff_key(&out.buf, &other.buf));
+            break;
+        }
+    }
+    out.kv("", "shift_same", &verdict);
+}
+
 /// The transcript lines of one request (without the `#k` line).
 fn handle(line: &str) -> String {
     let Some(sexp) = sexp::parse(line) else {
@@ -48,7 +121,7 @@ fn handle(line: &str) -> String {
     drop(sexp);
     let mut out = Out::new();
     match &req {
-        Request::Parse(kind, bytes) => view::dump_kind(&mut out, "", *kind, bytes),
+        Request::Parse(kind, bytes) => run_parse(&mut out, *kind, bytes),
         Request::Pad(kind, bytes, n) => run_pad(&mut out, *kind, bytes, *n),
         Request::Build(b, bufs) => build::run_build(&mut out, b, bufs),
         Request::Size(b) => build::run_size(&mut out, b),
@@ -106,5 +179,31 @@ fn main() {
             eprintln!("harness: internal panic outside of a request");
             std::process::exit(2);
         }
+    }
+}
+
+#[cfg(test)]
+mod tests {
+    use super::*;
+
+    #[test]
+    fn placed_copies_sit_at_the_requested_residue() {
+        for len in [0usize, 1, 4, 7, 8, 33] {
+            let data: Vec<u8> = (0..len).map(|i| (i * 31 + 7) as u8).collect();
+            for k in 0..8 {
+                let p = Placed::new(&data, k);
+                assert_eq!(p.bytes(), &data[..]);
+                assert_eq!(p.bytes().as_ptr() as usize % 8, k);
+            }
+        }
+    }
+
+    #[test]
+    fn first_differing_key() {
+        assert_eq!(first_diff_key("res=ok\nssrc=1\n", "res=ok\nssrc=2\n"), "ssrc");
+        assert_eq!(first_diff_key("res=ok\n", "res=ok\ndata=-@4\n"), "data");
+        assert_eq!(first_diff_key("res=ok\ndata=-@4\n", "res=ok\n"), "data");
+        assert_eq!(first_diff_key("res=ok\nn=1\n", "res=err:InvalidPadding\n"), "res");
+        assert_eq!(first_diff_key("a.b=x=y\n", "a.b=x=z\n"), "a.b");
     }
 }
